@@ -279,6 +279,10 @@ class KeepMonitor(object):
     def __init__(self, bat, U):
         self.U = U
         self.impl = bat._ReplLockManagerImpl(U)
+        # per lock: (holder, greatest stamp the holder showed since it was granted the lock) -- or absent when
+        # nobody validly holds it: never granted, released by the holder, or *expired*: a prolongation stamped
+        # later than the holder's greatest stamp + U went through the log (the holder "stopped prolonging").
+        self.grant = {}
 
     def rebuild(self, bat, u):
         """the log-head replica is replaced by one rebuilt from its snapshot (restart from a dump / install
@@ -317,4 +321,90 @@ class KeepMonitor(object):
                             "and the stamp is not later than %d+%d: the holder lost the lock without release and without expiry"
                             % (l, c0, t0, self.U, ("held by %d" % after[l][0]) if l in after else "gone", cmd_str(cmd), t0, self.U)}
             break
-        return r, viol, flags
+        viol2 = self.obtainable(cmd, r, after, flags)
+        return r, viol or viol2, flags
+
+    def obtainable(self, cmd, r, after, flags):
+        """'A lock whose holder stops prolonging it becomes obtainable by others after the auto-unlock time':
+        once a prolongation (of anybody) stamped later than the holder's greatest stamp + U has gone through
+        the log, (a) the old holder does not hold the lock again unless it acquires again, (b) the next acquire
+        of the lock -- by anybody, whatever its stamp, whatever prolongations of the old holder are committed
+        around it -- is granted.  Also: an acquire stamped later than the holder's greatest stamp + U is granted."""
+        U, viol = self.U, None
+        if cmd[0] == "acq":
+            _, l, c, t = cmd
+            g = self.grant.get(l)
+            must = g is None or g[0] == c or t > g[1] + U
+            if g is None:
+                flags.append("acq.of-free-or-expired-lock")
+            if must and r is not True:
+                viol = {"signature": "batteries._ReplLockManagerImpl.acquire:expired-lock-not-obtainable",
+                        "what": "acquire(L%d, client %d, stamp %d) answered %r although %s (U=%d); table %s"
+                                % (l, c, t, r, "nobody validly holds the lock (never granted / released / its holder's lock expired "
+                                   "earlier in the log)" if g is None else
+                                   "the holder %d's greatest stamp since it got the lock is %d" % g, U, sorted(after.items()))}
+            if r is True:
+                self.grant[l] = (c, t if g is None or g[0] != c or t > g[1] + U else max(t, g[1]))
+        elif cmd[0] == "pro":
+            _, c, t = cmd
+            for l, g in list(self.grant.items()):
+                if g is None:
+                    continue
+                if t > g[1] + U:
+                    del self.grant[l]             # expired: the holder stopped prolonging for more than U
+                    flags.append("pro.expires-lock" + (".of-the-prolonging-holder" if g[0] == c else ""))
+                    if l in after and viol is None:
+                        viol = {"signature": "batteries._ReplLockManagerImpl.prolongate:expired-lock-revived-without-acquire",
+                                "what": "client %d's greatest stamp for L%d was %d (U=%d); %s is stamped more than U later, so the lock "
+                                        "had expired -- yet afterwards L%d is held by client %d with time %d: revived without an acquire"
+                                        % (g[0], l, g[1], U, cmd_str(cmd), l, after[l][0], after[l][1])}
+                elif g[0] == c:
+                    self.grant[l] = (c, max(t, g[1]))
+        else:
+            _, l, c = cmd
+            g = self.grant.get(l)
+            if g is not None and g[0] == c:
+                del self.grant[l]
+        if viol is None:
+            for l, e in after.items():
+                if self.grant.get(l) is None:
+                    viol = {"signature": "batteries._ReplLockManagerImpl.%s:lock-held-without-grant"
+                                         % {"acq": "acquire", "pro": "prolongate", "rel": "release"}[cmd[0]],
+                            "what": "after %s L%d is held by client %d (time %d) although nobody was granted it since it was "
+                                    "released / expired" % (cmd_str(cmd), l, e[0], e[1])}
+                    break
+        return viol
+
+
+def silent_before(cmds, U, z, l):
+    """read off a command log: before z's acquire of l (stamp t) every other client that acquired l had shown no
+    stamp in [t-U, t], and none of them acquired l with a later stamp before it"""
+    idx = next((i for i, c in enumerate(cmds) if c[0] == "acq" and c[1] == l and c[2] == z), None)
+    if idx is None:
+        return False
+    t = cmds[idx][3]
+    others = set(c[2] for c in cmds[:idx] if c[0] == "acq" and c[1] == l and c[2] != z)
+    if not others:
+        return False
+    for c in cmds[:idx]:
+        who = c[2] if c[0] == "acq" else c[1] if c[0] == "pro" else None
+        if who in others:
+            if c[0] == "acq" and c[1] == l and c[3] > t:
+                return False
+            if c[0] in ("acq", "pro") and t - U <= c[-1] <= t:
+                return False
+    return True
+
+
+def stalled(cmds, U, y, l):
+    """read off a command log: y acquired l and one of its later prolongations is stamped more than U after
+    everything it had shown before"""
+    m = None
+    for c in cmds:
+        if c[0] == "acq" and c[1] == l and c[2] == y:
+            m = c[3] if m is None else max(m, c[3])
+        elif c[0] == "pro" and c[1] == y and m is not None:
+            if c[2] > m + U:
+                return True
+            m = max(m, c[2])
+    return False
